@@ -210,7 +210,15 @@ def leg_files_special(ns, node, res, spec):
                 reqs.append({'bytes_hex': data.hex(), 'chunks': [len(data)] if stream else None, 'encoding': 'binary' if enc == 'latin-1' else enc, 'delim': dlm, 'policy': policy, 'has_header': header, 'comment_prefix': comment})
                 meta.append((data, enc, dlm, policy, header, comment, stream))
             res.nontrivial('special', text, enc, policy)
-    for bad in [b'a\xffb\n', b'\xc0\x80,x', b'a,\xed\xa0\x80\n', b'ab\x80', b'q\n\xe2\x82']:
+    # every multi-byte character cut to every proper prefix, followed by ASCII, a delimiter, a line break, another character or the end of the file
+    truncated = []
+    for ch in ('é', '€', '😀'):
+        enc_ = ch.encode('utf-8')
+        for k in range(1, len(enc_)):
+            for tail in (b'', b'b', b',x', b'\n', b'\r\nq', '€'.encode('utf-8')):
+                truncated.append(b'a,' + enc_[:k] + tail)
+                truncated.append(enc_[:k] + tail)
+    for bad in [b'a\xffb\n', b'\xc0\x80,x', b'a,\xed\xa0\x80\n', b'ab\x80', b'q\n\xe2\x82'] + truncated:
         for stream in (False, True):
             reqs.append({'bytes_hex': bad.hex(), 'chunks': [len(bad)] if stream else None, 'encoding': 'utf-8', 'delim': ',', 'policy': 'quoted', 'has_header': False, 'comment_prefix': None})
             meta.append((bad, 'utf-8', ',', 'quoted', False, None, stream))
@@ -427,7 +435,7 @@ def run_shard(spec, res):
 
 def summarize(tier, seed, m):
     return {
-        'rule': 'split: exhaustive lines up to %d symbols over {a, quote, delimiter, space (+ first char of a multi-character delimiter)} x delimiters %r x policies x both preserve modes; quote: all fields up to length %d over the quoting alphabet; readers: exhaustive files up to %d characters over {a, quote, comma, space, LF, CR, #} x {simple, quoted, quoted_rfc} x comment prefix x header flag, python reader vs JS bulk (every third also vs JS stream), plus BOM / multi-byte / invalid / random Unicode files; cross: C10 tables written by both writers (identical bytes, identical warning kinds) and read by both readers; header: generated common-syntax select lists on empty tables x header/no header x join. distinct_nontrivial = inputs containing a special character (exhaustive legs) + distinct random cases.' % (SPLIT_LEN[tier], SPLIT_DELIMS, 4 if tier == 'quick' else 5, FILE_LEN[tier]),
+        'rule': 'split: exhaustive lines up to %d symbols over {a, quote, delimiter, space (+ first char of a multi-character delimiter)} x delimiters %r x policies x both preserve modes; quote: all fields up to length %d over the quoting alphabet; readers: exhaustive files up to %d characters over {a, quote, comma, space, LF, CR, #} x {simple, quoted, quoted_rfc} x comment prefix x header flag, python reader vs JS bulk (every third also vs JS stream), plus BOM / multi-byte / random Unicode files and invalid ones (stray and overlong bytes, surrogates, every multi-byte character cut to every proper prefix in front of ASCII, a delimiter, a line break, another character and the end of the file); cross: C10 tables written by both writers (identical bytes, identical warning kinds) and read by both readers; header: generated common-syntax select lists on empty tables x header/no header x join. distinct_nontrivial = inputs containing a special character (exhaustive legs) + distinct random cases.' % (SPLIT_LEN[tier], SPLIT_DELIMS, 4 if tier == 'quick' else 5, FILE_LEN[tier]),
         'exhaustive': True,
         'required': ['split_comparisons', 'quote_comparisons', 'file_comparisons_bulk', 'file_comparisons_stream', 'special_file_comparisons', 'cross_roundtrips', 'header_comparisons'],
         'assumptions': ['differential only: a defect shared by both ports is invisible here (C10-C12, C07 cover those with reference models)',
